@@ -26,6 +26,8 @@ RULE = (
     "the generic class with error_status == status; offending_oid == binding[index-1] when "
     "1<=index<=len, empty otherwise; no data is returned. Distinct by (operation, level, "
     "status, index, len, when)."
+    " For the authenticated levels the error also arrives in the answer to the request RE-SEN"
+    "T after a notInTimeWindow report (device rebooted since discovery)."
 )
 ASSUMPTIONS = [
     "an error response echoes the request's bindings (RFC 3416 4.2.x), tooBig may carry an empty list",
